@@ -127,6 +127,7 @@ type pworld struct {
 	liveBroken bool
 
 	sawBlocked   bool
+	lastMs       int64 // wall-clock duration of the last handler call made through emit
 	afterHandler func() // direct mode: runs right after the handler returned, before outputs are collected
 }
 
@@ -603,6 +604,7 @@ func (w *pworld) emit(op string, fields string, f func(), expectLoop bool) bool 
 	if w.sawBlocked {
 		wait = 2 * time.Second // one full wait is enough; further blocked handlers are reported without it
 	}
+	t0 := time.Now()
 	select {
 	case panicked = <-done:
 	case <-time.After(wait):
@@ -610,6 +612,7 @@ func (w *pworld) emit(op string, fields string, f func(), expectLoop bool) bool 
 		panicked = "handler_blocked"
 		w.sawBlocked = true
 	}
+	w.lastMs = time.Since(t0).Milliseconds()
 	w.nline++
 	w.dist[op]++
 	if panicked != "" {
@@ -1596,15 +1599,35 @@ func (w *pworld) fullQueueFamily(id string) {
 	if !w.observation(w.obsFor(set[0], d)) {
 		return
 	}
+	// three more messages of the same emitter that only this node has signed: four retransmissions fall due together
+	for i := 0; i < 3; i++ {
+		if !w.message(w.randMsg(emitter, uint64(2+i))) {
+			return
+		}
+	}
 	// no quorum (2 of 4): five minutes later the retry is due; the request queue is full
 	w.advance(301 * time.Second)
-	if !w.cleanup(0) {
+	if !w.cleanup(0) { // (the first tick after the settlement time only marks the entries settled)
 		return
 	}
 	w.advance(300 * time.Second)
 	if !w.cleanup(1) {
 		return
 	}
+	var ms []int64
+	for i := 0; i < 2; i++ {
+		w.advance(300 * time.Second)
+		if !w.cleanup(0) {
+			return
+		}
+		ms = append(ms, w.lastMs)
+	}
+	// "posting to a full outbound request queue fails immediately instead of stalling the caller": the shorter of the two ticks
+	least := ms[0]
+	if ms[1] < least {
+		least = ms[1]
+	}
+	fmt.Fprintf(w.w, "stall %s due=4 ms=%d all=%d,%d\n", w.caseID, least, ms[0], ms[1])
 	w.observation(w.obsFor(set[2], d))
 }
 
